@@ -168,6 +168,7 @@ class Interp:
         self.trips = []         # (guard, trip term) of every counted DO loop
         self.int_divs = []      # (numerator, denominator) of every integer division evaluated
         self.concrete_inputs = {}   # storage key / extent name -> concrete z3 value (replay mode)
+        self.check_kinds = True          # a named kind in a literal must be declared before use
         self.allow_save_struct = False   # accept `type(x), save, target :: v` locals (PSyData handles)
         self.eguard = None      # element guard while an array-valued expression's element is evaluated
         self.gcur = None        # guard of the expression being evaluated (for conformance hypotheses)
@@ -413,7 +414,10 @@ class Interp:
                     for x in d.content:
                         if isinstance(x, F.Implicit_Stmt) and "NONE" not in str(x).upper():
                             raise Unsupported("implicit typing")
-                        if isinstance(x, (F.Parameter_Stmt, F.Format_Stmt, F.Entry_Stmt)):
+                        if isinstance(x, F.Parameter_Stmt):
+                            self._parameter_stmt(x, frame, guard)
+                            continue
+                        if isinstance(x, (F.Format_Stmt, F.Entry_Stmt)):
                             raise Unsupported(type(x).__name__)
                 continue
             if isinstance(d, F.Use_Stmt):
@@ -428,6 +432,19 @@ class Interp:
                 self._declare_stmt(d, frame, dummies, actuals, top, guard, keyprefix)
                 continue
             raise Unsupported("declaration " + type(d).__name__)
+
+    def _parameter_stmt(self, x, frame, guard):
+        """PARAMETER (name = expr, ...): the named entity (typed by an earlier declaration) becomes a constant"""
+        defs = x.items[1]
+        defs = defs.items if isinstance(defs, F.Named_Constant_Def_List) else [defs]
+        for d in defs:
+            name = lname(d.items[0])
+            b = frame.vars.get(name)
+            if b is None or b.rank or b.tname == "struct":
+                raise Unsupported("PARAMETER statement for " + name)
+            val = self.ev(d.items[1], frame, guard)
+            self.store[b.key] = coerce(val, sort_of(b.tname))
+            b.is_param = True
 
     def use_handler(self, d, frame):   # overridable
         return False
@@ -1293,9 +1310,13 @@ class Interp:
 
     def ev(self, node, frame, g):
         self.gcur = g
-        if isinstance(node, F.Int_Literal_Constant):
-            return z3.IntVal(int(node.items[0]))
-        if isinstance(node, F.Real_Literal_Constant):
+        if isinstance(node, (F.Int_Literal_Constant, F.Real_Literal_Constant)):
+            kind = node.items[1]
+            if kind is not None and not str(kind).isdigit() and self.check_kinds:
+                if self.lookup(lname(kind), frame) is None:
+                    raise Unsupported(f"kind parameter {kind} is not declared at this point")
+            if isinstance(node, F.Int_Literal_Constant):
+                return z3.IntVal(int(node.items[0]))
             return _real_lit(node.items[0])
         if isinstance(node, F.Logical_Literal_Constant):
             return z3.BoolVal(str(node.items[0]).upper() == ".TRUE.")
